@@ -111,7 +111,7 @@ func c15Empty(cfg []int) bool {
 	return true
 }
 
-//verif:entry tier=quick,thorough cover=hit,empty,removed,collision
+//verif:entry native tier=quick,thorough cover=hit,empty,removed,collision
 //verif:doc Member-only (hash collisions allowed): histories of 3 operations (quick: 2 nodes, ring replicas 1; thorough: 2 nodes x replicas 1..2 or 3 nodes x replicas 1) Add / AddWithReplicas(1..3) / AddWithWeight(0..200) / Remove, every virtual-node hash and the probe hash symbolic: Get returns a node that currently has virtual nodes, none iff there is none, never a removed node.
 func Verif_C15_Member() {
 	hf := &c15Hash{memo: map[string]uint64{}}
@@ -142,7 +142,7 @@ func Verif_C15_Member() {
 	}
 }
 
-//verif:entry tier=quick,thorough cover=same,differentOrder
+//verif:entry native tier=quick,thorough cover=same,differentOrder
 //verif:doc Determinism (virtual-node hashes pairwise distinct: assumption): after any history of 3 operations (quick: 2 nodes, ring replicas 1; thorough: 2 nodes x replicas 1..2 or 3 nodes x replicas 1) the answer for the probe equals the answer of a ring built from scratch from the resulting (node, virtual-node count) configuration in a fixed order: the mapping depends only on the current node set and replica counts, not on history.
 func Verif_C15_Deterministic() {
 	hf := &c15Hash{memo: map[string]uint64{}, distinct: true}
@@ -168,7 +168,7 @@ func Verif_C15_Deterministic() {
 	rt.Assert(len(h.keys) == len(ref.keys), "the ring holds exactly the virtual nodes of the current configuration")
 }
 
-//verif:entry tier=quick,thorough cover=added,removedNode,reweighted,moved,stayed
+//verif:entry native tier=quick,thorough cover=added,removedNode,reweighted,moved,stayed
 //verif:doc Minimal disruption (virtual-node hashes pairwise distinct: assumption): from a ring of 1..2 other nodes, adding node X changes the probe's answer only to X; removing X changes it only if it was X; re-adding X with another replica count / weight moves the probe only to or from X.
 func Verif_C15_Disruption() {
 	hf := &c15Hash{memo: map[string]uint64{}, distinct: true}
